@@ -599,6 +599,35 @@ impl Property for C08 {
                         log.push(format!("parse({:?})", r.text));
                         m.parsed_texts.push(r.text.clone());
                         kinds[0] = true;
+                        if parse_centred {
+                            // look every name of the document up BEFORE it is parsed (most of them miss):
+                            // the parser registers them on its own path, the lookups afterwards must see that
+                            fn names_of(n: &crate::model::ANode, out: &mut Vec<crate::model::QName>) {
+                                if let crate::model::ANode::Element(e) = n {
+                                    out.push(e.name.clone());
+                                    for (q, _) in &e.attrs {
+                                        out.push(q.clone());
+                                    }
+                                }
+                                for c in n.children() {
+                                    names_of(c, out);
+                                }
+                            }
+                            let mut qs = vec![];
+                            names_of(&r.expected, &mut qs);
+                            qs.reverse();
+                            for q in qs {
+                                let got = xot.namespace(&q.ns).and_then(|ns| xot.name_ns(&q.local, ns));
+                                if let Some(id) = m.nm.get(&(q.local.clone(), q.ns.clone())) {
+                                    if got != Some(*id) {
+                                        return Err(format!("name_ns({}) before the parse is {:?}, registered as {:?}", q.show(), got, id));
+                                    }
+                                }
+                                if q.ns.is_empty() && xot.name(&q.local) != got {
+                                    return Err(format!("name({:?}) and name_ns({:?}, no namespace) disagree", q.local, q.local));
+                                }
+                            }
+                        }
                         let doc = match xot.parse(&r.text) {
                             Ok(d) => d,
                             Err(_) => return Ok(()), // acceptance is C02's business
